@@ -5491,3 +5491,83 @@ def check_variable_kinds_described(ck, R):
     ck.ob(R, sv.key(None, "kinds-described:keys"), okk, "non-string dictionary keys are described in the hash of a tracked variable" if okk else
           "the hash of a tracked variable is taken from a JSON dump, which writes every dictionary key as a string, and nothing else describes "
           "the keys: editing G = {1: 'a'} into G = {'1': 'a'} leaves every version where it was", sv.where())
+
+
+def _fresh_or_constant(e) -> bool:
+    """a value that carries nothing over from an earlier call: a constant, or a container made on the spot"""
+    if e is None or isinstance(e, ast.Constant):
+        return True
+    if isinstance(e, (ast.Set, ast.List, ast.Tuple, ast.Dict)):
+        return True
+    return isinstance(e, ast.Call) and isinstance(e.func, ast.Name) and e.func.id in ("set", "list", "dict", "tuple", "frozenset") and not e.args and not e.keywords
+
+
+def check_edges_of_a_node_depend_on_its_function_only(ck, R):
+    """The dependency graph links EACH memento function to those it reaches without passing through another memento function.  The
+    rules between a function and the first memento functions below it (what its edges are made from) are therefore a function of
+    that function's own hash rules alone: whatever the derivation consults to decide which rules to follow or to return - the set
+    that stops the walk on a cycle, the work list - is made inside the call.  State that outlives the call (a parameter the caller
+    binds to a set it keeps for the whole graph, a field of the class, a module-level container) makes the answer for one function
+    depend on which functions of the graph were asked before it: a plain helper followed for the first function is not followed
+    again for the second, and the second loses its edges to the memento functions behind that helper."""
+    ck.rule(R, "the rules from which a node's edges are made depend on the node's own function only (no state carried from one function of the graph to the next)", 1)
+    Q = "dependency_graph.DependencyGraph._rules_until_first_memento_fn"
+    fa = FA(ck, Q)
+    if fa.host_fallback:
+        # the derivation was folded into its caller (one call of generate_graph per function): its working sets are locals there
+        ck.ob(R, fa.key(None, "edges-from-own-function"), True, "the derivation is part of the per-function step of generate_graph", fa.where())
+        return
+    rets = [r for r in fa.returns() if r.value is not None and fa.nodes(r)]
+    ck.need(bool(rets), "_rules_until_first_memento_fn: no returned value found")
+    sl = _backward_slice(fa, [(r.value, fa.nodes(r)[0]) for r in rets], stmts=rets)
+    # the parameter that stands for the function: the one whose hash rules are read
+    fn_params = set()
+    for c in fa.calls("hash_rules"):
+        r_ = A.call_recv(c)
+        if isinstance(r_, ast.Name) and r_.id in fa.fi.params:
+            fn_params.add(r_.id)
+    ck.need(len(fn_params) == 1, "_rules_until_first_memento_fn: expected one parameter whose hash_rules() are read, found %d" % len(fn_params))
+    own = {"self", "cls"} | fn_params
+    mod = fa.fi.module
+    carried = []   # (what, where)
+    sites = ck.cg.call_sites_of(lambda c, cands: any(f.qual == Q for f in cands))
+    for n in sl.values():
+        if isinstance(n, ast.Name) and isinstance(n.ctx, ast.Load):
+            if n.id in fa.fi.params and n.id not in own:
+                at = (fa.nodes(n) or [None])[0]
+                if at is not None and not any(d.kind == "param" for d in fa.df.reaching(at, n.id)):
+                    continue   # re-bound before this read
+                dflt = _ValueOrigins._default(fa, n.id)
+                binds = []
+                for (caller, call, _c) in sites:
+                    a_ = _call_arg(ck, call, Q, n.id)
+                    if a_ is not None:
+                        binds.append((caller, call, a_))
+                    elif any(isinstance(x, ast.Starred) for x in call.args) or any(k.arg is None for k in call.keywords):
+                        binds.append((caller, call, None))
+                for (caller, call, a_) in binds:
+                    if a_ is None or not _fresh_or_constant(a_):
+                        carried.append(("parameter `%s`, which %s binds to `%s`" % (n.id, caller.qual, A.short(a_, 40) if a_ is not None else "*args/**kwargs"),
+                                        "%s:%d" % (caller.file, call.lineno)))
+                if dflt is not None and not isinstance(dflt, ast.Constant):
+                    carried.append(("parameter `%s`, whose default `%s` is one object shared by all calls" % (n.id, A.short(dflt, 40)), fa.where()))
+            elif not fa.df.is_local(n.id) and n.id in mod.assigns and not isinstance(mod.assigns[n.id], ast.Constant) \
+                    and n.id not in mod.functions and n.id not in mod.classes:
+                v_ = mod.assigns[n.id]
+                if isinstance(v_, (ast.Set, ast.List, ast.Dict)) or (isinstance(v_, ast.Call) and A.call_attr(v_) in ("set", "list", "dict", "defaultdict", "OrderedDict", "WeakSet", "WeakKeyDictionary", "WeakValueDictionary", "deque")):
+                    carried.append(("module-level container `%s`" % n.id, fa.where(fa.stmt_of(n)) if fa.stmt_of(n) is not None else fa.where()))
+        elif isinstance(n, ast.Attribute) and isinstance(n.ctx, ast.Load) and isinstance(n.value, ast.Name) and n.value.id in ("self", "cls") \
+                and n.value.id in fa.fi.params:
+            par = fa.pm.get(n)
+            if isinstance(par, ast.Call) and par.func is n:
+                continue   # a method of the class
+            carried.append(("field `%s`" % A.norm(n), fa.where(fa.stmt_of(n)) if fa.stmt_of(n) is not None else fa.where()))
+    carried = sorted(set(carried))
+    ok = not carried
+    ck.ob(R, fa.key(None, "edges-from-own-function"), ok,
+          "which rules are followed and returned for `%s` is decided from its own hash rules and sets made inside the call" % sorted(fn_params)[0] if ok else
+          "which rules _rules_until_first_memento_fn follows and returns for `%s` also depends on %s: state that lives longer than the call, so the "
+          "answer for one function depends on the functions asked before it - a plain helper already followed for another function of the graph "
+          "is not followed again, and every further memento function that reaches a memento function through that helper loses its edge in "
+          "graph()/df() (its own dependencies().df() still shows it)" % (sorted(fn_params)[0], "; ".join(w for (w, _l) in carried[:3])),
+          carried[0][1] if carried else fa.where())
